@@ -65,6 +65,7 @@ type sConnScript struct {
 	dropAfter int           // close after this many UPDATE messages (-1: never)
 	dropMid   bool          // ... after additionally reading half of the next message
 	delayOpen time.Duration // wait this long before answering with our OPEN (slow / loaded peer)
+	hold      uint16        // hold time the peer proposes in its OPEN on this connection
 }
 
 type sPeer struct {
@@ -189,6 +190,7 @@ func (p *sPeer) serve() {
 		} else if p.capRand != nil {
 			// the peer may come back with different capabilities (restart, failover, reconfiguration)
 			sc.as4 = p.capRand.Intn(2) == 0
+			sc.hold = sPeerHolds[p.capRand.Intn(len(sPeerHolds))]
 		}
 		if sc.dropAfter >= 0 {
 			pc.arm, pc.armMid = sc.dropAfter, sc.dropMid
@@ -259,7 +261,7 @@ func (p *sPeer) handle(pc *sPeerConn, sc sConnScript) {
 		return
 	}
 	// our OPEN
-	o := &vOpenMsg{Ver: 4, ASN: uint16(sc.asn), Hold: 90, ID: [4]byte{10, 0, 0, 2}}
+	o := &vOpenMsg{Ver: 4, ASN: uint16(sc.asn), Hold: sc.hold, ID: [4]byte{10, 0, 0, 2}}
 	if sc.asn > 65535 {
 		o.ASN = 23456
 	}
@@ -398,9 +400,9 @@ func (p *sPeer) handle(pc *sPeerConn, sc sConnScript) {
 			p.fail("session-message-malformed", fmt.Sprintf("c%d: %x: %v", pc.id, mb, derr))
 		case m.Type == 4:
 			p.kalives++
-			p.logT(fmt.Sprintf("TKeepalive %d 90", pc.id), fmt.Sprintf("c%d: KEEPALIVE", pc.id))
-			if p.wantHold == 0 {
-				p.fail("session-keepalive-with-hold-time-0", fmt.Sprintf("c%d: hold time 0 was configured (no keepalive timer), a KEEPALIVE arrived after the accepting one", pc.id))
+			p.logT(fmt.Sprintf("TKeepalive %d %d", pc.id, sc.hold), fmt.Sprintf("c%d: KEEPALIVE", pc.id))
+			if p.wantHold == 0 || sc.hold == 0 {
+				p.fail("session-keepalive-with-hold-time-0", fmt.Sprintf("c%d: negotiated hold time is 0 (configured %d, peer %d: no keepalive timer), a KEEPALIVE arrived after the accepting one", pc.id, p.wantHold, sc.hold))
 			}
 		case m.Type == 2:
 			p.msgs++
@@ -510,6 +512,10 @@ func sASPathWidth(mb []byte) int {
 	return -1
 }
 
+// hold times the peer proposes (per connection): the session's own OPEN must keep
+// carrying the CONFIGURED hold time whatever earlier peers proposed
+var sPeerHolds = []uint16{90, 90, 9, 3, 240, 30}
+
 func sKeyOf(n vNLRI) int {
 	if n.Len == 32 && len(n.Bits) == 4 && n.Bits[0] == 10 && n.Bits[1] >= 100 && n.Bits[3] == 7 {
 		return sNKeys + int(n.Bits[1]-100)*256 + int(n.Bits[2])
@@ -596,9 +602,16 @@ func sRunSchedule(t *testing.T, out *vOut, id int, r *rand.Rand, special string)
 		peerASN = myASN
 	}
 	p := &sPeer{t: t, ln: ln, myASN: myASN, ibgp: ibgp, closedAt: -1, slow: special == "asn65536", lastCap: -1, openSent: make(chan int, 64), t0: time.Now(),
-		def: sConnScript{asn: peerASN, as4: as4, dropAfter: -1}}
+		def: sConnScript{asn: peerASN, as4: as4, dropAfter: -1, hold: 90}}
 	if special == "" && myASN <= 65535 {
 		p.capRand = rand.New(rand.NewSource(r.Int63()))
+	}
+	if special == "hold-renegotiate" {
+		// the first peer proposes a smaller hold time than configured; after the flap the
+		// session's OPEN must still carry the configured one
+		first := p.def
+		first.hold = 9
+		p.scripts = []sConnScript{first}
 	}
 	if special == "fail-after-success" {
 		// established, flap, the reconnect fails in its handshake (first failure of a
@@ -630,6 +643,9 @@ func sRunSchedule(t *testing.T, out *vOut, id int, r *rand.Rand, special string)
 		sc := p.def
 		if p.capRand != nil {
 			sc.as4 = r.Intn(2) == 0
+		}
+		if special == "" {
+			sc.hold = sPeerHolds[r.Intn(len(sPeerHolds))]
 		}
 		if r.Intn(4) == 0 {
 			sc.delayOpen = time.Duration(2+r.Intn(30)) * time.Millisecond
@@ -673,7 +689,10 @@ func sRunSchedule(t *testing.T, out *vOut, id int, r *rand.Rand, special string)
 		ht = -1
 	case "keepalive:3s":
 		ht = 3 * time.Second
+	case "hold-renegotiate":
+		ht = 90 * time.Second
 	}
+	htConfigured := ht
 	var htp *time.Duration
 	holdCoq := cNone
 	holdName := "nil"
@@ -837,6 +856,14 @@ func sRunSchedule(t *testing.T, out *vOut, id int, r *rand.Rand, special string)
 		out.Stat("sess:close-in-handshake", 1)
 	}
 	universe := []int{0, 1, 2, 3, 4, 5}
+	if special == "hold-renegotiate" {
+		nact = 0
+		doSet()
+		waitFor(func() bool { return p.cur != nil && p.cur.estab })
+		p.dropIdle()
+		doSet()
+		waitFor(func() bool { return p.nconn >= 2 })
+	}
 	if special == "fail-after-success" {
 		nact = 0
 		doSet()
@@ -1131,6 +1158,12 @@ func sRunSchedule(t *testing.T, out *vOut, id int, r *rand.Rand, special string)
 	if special == "close-in-backoff" {
 		out.Stat("sess:close-in-backoff-refusals", p.refused)
 	}
+	if htp != nil && *htp != htConfigured {
+		p.fail("session-rewrites-configured-hold-time", fmt.Sprintf("the caller's HoldTime value was %v when the session was created and is %v now", htConfigured, *htp))
+	}
+	if p.nconn > 1 {
+		out.Stat("sess:open-after-reconnect-checked", 1)
+	}
 	out.Stat("sess:failed-attempt-after-a-success", p.failAfterOK)
 	out.Stat("sess:oversized-updates", p.oversized)
 	out.Stat("sess:cap-flip-on-off", p.flipOnOff)
@@ -1305,7 +1338,8 @@ func sPairs(l []sKV) string {
 	return cList(it)
 }
 
-func sStepCase(out *vOut, id int, r *rand.Rand) {
+// force: 0 random; 1 Set of exactly the advertised set while another request is pending; 2 invalid Set while a request is pending
+func sStepCase(out *vOut, id int, r *rand.Rand, force int) {
 	index := map[*bgp.Advertisement]sKV{}
 	mk := func(k, v int) *bgp.Advertisement {
 		a := wAdv{P: sPrefix(k), LP: sAttrs[v].LP, Comms: sAttrs[v].Comms}.real()
@@ -1347,7 +1381,7 @@ func sStepCase(out *vOut, id int, r *rand.Rand) {
 		adv          []sKV
 		pend         []sKV
 		hasPend      bool
-	}{closed: r.Intn(6) == 0, conn: r.Intn(2) == 0, adv: randList(), hasPend: r.Intn(2) == 0}
+	}{closed: r.Intn(6) == 0, conn: r.Intn(2) == 0, adv: randList(), hasPend: r.Intn(2) == 0 || force != 0}
 	w.setBool("closed", pre.closed)
 	w.setAdvMap("advertised", toMap(pre.adv))
 	if pre.hasPend {
@@ -1363,6 +1397,9 @@ func sStepCase(out *vOut, id int, r *rand.Rand) {
 		w.setConn(c1)
 	}
 	opn := r.Intn(6)
+	if force != 0 {
+		opn = force
+	}
 	op, opH := "OAbort", "abort"
 	switch opn {
 	case 4: // consumeBGP(conn) returns (peer closed): conn is the session's connection or a stale one
@@ -1402,6 +1439,10 @@ func sStepCase(out *vOut, id int, r *rand.Rand) {
 		w.unlock()
 	case 1:
 		l := randList()
+		if pre.hasPend && (r.Intn(3) == 0 || force == 1) {
+			l = append([]sKV{}, pre.adv...) // exactly what is advertised, while another request is pending
+			out.Stat("step:Set-of-advertised-while-pending", 1)
+		}
 		if r.Intn(3) == 0 && len(l) > 0 { // duplicate prefix, last wins
 			l = append(l, sKV{l[0].K, r.Intn(len(sAttrs))})
 		}
@@ -1476,9 +1517,10 @@ func sStepCase(out *vOut, id int, r *rand.Rand) {
 // on this same connection the peer's table converges to the LAST requested set.
 // The trace (TAccept/THandshake stand for the hand-made connection) is replayed
 // by Coq like every other schedule.
-func sPipeSchedule(out *vOut, id int, r *rand.Rand) {
+func sPipeSchedule(out *vOut, id int, r *rand.Rand, fault bool) {
 	c1, c2 := net.Pipe()
-	defer c2.Close()
+	defer func() { c2.Close() }()
+	cid := 1
 	ibgp := r.Intn(2) == 0
 	fb := r.Intn(2) == 0
 	myASN, peerASN := uint32(64512), uint32(sPeerASN)
@@ -1517,7 +1559,7 @@ func sPipeSchedule(out *vOut, id int, r *rand.Rand) {
 	lg("TAccept 1", "pipe connection c1")
 	lg(fmt.Sprintf("THandshake 1 %d %s true", peerASN, cBool(fb)), fmt.Sprintf("c1: established by hand, as4=%v", fb))
 	done := make(chan bool)
-	go func() { s.sendUpdates(); close(done) }()
+	go func(d chan bool) { s.sendUpdates(); close(d) }(done)
 
 	variants := []int{0, 1, 2}
 	if ibgp {
@@ -1612,7 +1654,7 @@ func sPipeSchedule(out *vOut, id int, r *rand.Rand) {
 			for _, n := range u.NLRI {
 				k := sKeyOf(n)
 				table[k] = v
-				lg(fmt.Sprintf("TUpd 1 %d %d %d", k, v, width), fmt.Sprintf("c1: update k%d=a%d", k, v))
+				lg(fmt.Sprintf("TUpd %d %d %d %d", cid, k, v, width), fmt.Sprintf("c%d: update k%d=a%d", cid, k, v))
 			}
 		}
 		if len(u.Withdrawn) > 0 {
@@ -1622,7 +1664,7 @@ func sPipeSchedule(out *vOut, id int, r *rand.Rand) {
 				delete(table, k)
 				ks = append(ks, k)
 			}
-			lg(fmt.Sprintf("TWdr 1 %s", cListN(ks)), fmt.Sprintf("c1: withdraw %v", ks))
+			lg(fmt.Sprintf("TWdr %d %s", cid, cListN(ks)), fmt.Sprintf("c%d: withdraw %v", cid, ks))
 		}
 		return true
 	}
@@ -1657,44 +1699,172 @@ func sPipeSchedule(out *vOut, id int, r *rand.Rand) {
 	close(closed)
 	callSet(randSet(0))
 	drainUntilIdle(closed)
-	// 1. a further set; the sender starts its flush and blocks in the first write
-	a := randSet(3)
-	callSet(a)
-	want := a
-	// 2. the peer reads only part of the flush, then stops reading
-	for k := r.Intn(len(a)); k > 0; k-- {
-		readOne(500 * time.Millisecond)
-	}
-	// 3. further Set() calls while the sender sits in its write
-	nmore := 1 + r.Intn(2)
-	setsDone := make(chan bool)
-	var last map[int]int
-	var sets []map[int]int
-	for i := 0; i < nmore; i++ {
-		m := randSet(0)
-		if r.Intn(4) == 0 {
-			m = map[int]int{}
+	var want map[int]int
+	setsDone := closed
+	if fault {
+		// F1. a set A, delivered
+		a := randSet(3)
+		callSet(a)
+		drainUntilIdle(closed)
+		// F2. a change that drops 1-2 routes (and may change others): its messages are the
+		// UPDATEs of the changed routes, then ONE withdraw.  The peer reads j of them and goes
+		// away: the write of message j+1 fails (j = number of UPDATEs: the withdraw fails)
+		b := map[int]int{}
+		var removed []int
+		for k, v := range a {
+			b[k] = v
 		}
-		sets = append(sets, m)
-		last = m
-	}
-	go func() {
-		for _, m := range sets {
-			callSet(m)
+		ks := make([]int, 0, len(a))
+		for k := range a {
+			ks = append(ks, k)
 		}
-		close(setsDone)
-	}()
-	// the peer stays silent until the Set() calls have either all returned (a sender
-	// that does not hold the lock while writing lets them through) or are
-	// evidently waiting for the sender (20 ms)
-	select {
-	case <-setsDone:
-	case <-time.After(20 * time.Millisecond):
+		sort.Ints(ks)
+		r.Shuffle(len(ks), func(x, y int) { ks[x], ks[y] = ks[y], ks[x] })
+		for _, k := range ks[:1+r.Intn(2)] {
+			delete(b, k)
+			removed = append(removed, k)
+		}
+		nupd := 0
+		for k := range b {
+			if r.Intn(3) == 0 {
+				if v := variants[r.Intn(len(variants))]; v != b[k] {
+					b[k] = v
+					nupd++
+				}
+			}
+		}
+		callSet(b)
+		jf := nupd
+		if r.Intn(3) == 0 {
+			jf = r.Intn(nupd + 1)
+		}
+		for x := 0; x < jf; x++ {
+			readOne(500 * time.Millisecond)
+		}
+		c2.Close()
+		lg(fmt.Sprintf("TDrop %d", cid), fmt.Sprintf("c%d: peer goes away after %d of %d messages (write %d fails)", cid, jf, nupd+1, jf+1))
+		select {
+		case <-done:
+		case <-time.After(3 * time.Second):
+			mu.Lock()
+			fails = append(fails, [2]string{"session-sender-does-not-stop", "sendUpdates did not return 3 s after a write to a closed connection"})
+			mu.Unlock()
+		}
+		out.Stat("sess:write-failure-at-chosen-message", 1)
+		if jf == nupd {
+			out.Stat("sess:write-failure-at-the-withdraw", 1)
+		}
+		// F3. the session is down: every request accepted now must be honoured by the next
+		// connection; a rejected one must change nothing; what abort folded (B) is advertised
+		cur := b
+		invalid := func() {
+			bad := wAdv{P: sPrefix(1), Comms: wComms(r, 64, -1)}
+			advs := []*bgp.Advertisement{(wAdv{P: sPrefix(0), LP: 0}).real(), bad.real()}
+			if r.Intn(2) == 0 {
+				advs[1] = &bgp.Advertisement{Prefix: &net.IPNet{IP: net.ParseIP("2001:db8::"), Mask: net.CIDRMask(64, 128)}}
+			}
+			if err := s.Set(advs...); err == nil {
+				mu.Lock()
+				fails = append(fails, [2]string{"session-set-accepts-invalid", "Set with 64 communities / IPv6 prefix returned nil"})
+				mu.Unlock()
+			}
+			lg("TSetRejected", "Set(invalid) rejected")
+			out.Stat("sess:invalid-set-while-request-pending", 1)
+		}
+		other := func() map[int]int {
+			for {
+				if d := randSet(0); !sEq(d, b) {
+					return d
+				}
+			}
+		}
+		switch r.Intn(4) {
+		case 0: // a request, then the request for what is advertised already (= the last one)
+			callSet(other())
+			callSet(b)
+			cur = b
+			out.Stat("sess:set-of-advertised-after-other-request", 1)
+		case 1: // a request, then a rejected one
+			cur = other()
+			callSet(cur)
+			invalid()
+		case 2: // both
+			callSet(other())
+			invalid()
+			callSet(b)
+			cur = b
+			out.Stat("sess:set-of-advertised-after-other-request", 1)
+		}
+		// F4. reconnect (the peer may come back with another capability)
+		c1b, c2b := net.Pipe()
+		fb = r.Intn(2) == 0
+		w.lock()
+		w.setConn(c1b)
+		w.setBool("peerFBASNSupport", fb)
+		w.unlock()
+		c2, cid, table = c2b, 2, map[int]int{}
+		lg("TAccept 2", "pipe connection c2")
+		lg(fmt.Sprintf("THandshake 2 %d %s true", peerASN, cBool(fb)), fmt.Sprintf("c2: established by hand, as4=%v", fb))
+		d2 := make(chan bool)
+		go func() { s.sendUpdates(); close(d2) }()
+		done = d2
+		drainUntilIdle(closed)
+		if !sEq(table, cur) {
+			mu.Lock()
+			fails = append(fails, [2]string{"session-no-convergence", fmt.Sprintf("after the reconnect, sender idle: peer table %v, last accepted Set %v (requests made while the session was down)", table, cur)})
+			mu.Unlock()
+		}
+		// F5. a later change on the new connection: re-add what F2 dropped
+		c := map[int]int{}
+		for k, v := range cur {
+			c[k] = v
+		}
+		for _, k := range removed {
+			c[k] = variants[r.Intn(len(variants))]
+		}
+		callSet(c)
+		drainUntilIdle(closed)
+		want = c
+	} else {
+		// 1. a further set; the sender starts its flush and blocks in the first write
+		a := randSet(3)
+		callSet(a)
+		want = a
+		// 2. the peer reads only part of the flush, then stops reading
+		for k := r.Intn(len(a)); k > 0; k-- {
+			readOne(500 * time.Millisecond)
+		}
+		// 3. further Set() calls while the sender sits in its write
+		nmore := 1 + r.Intn(2)
+		setsDone = make(chan bool)
+		var last map[int]int
+		var sets []map[int]int
+		for i := 0; i < nmore; i++ {
+			m := randSet(0)
+			if r.Intn(4) == 0 {
+				m = map[int]int{}
+			}
+			sets = append(sets, m)
+			last = m
+		}
+		go func() {
+			for _, m := range sets {
+				callSet(m)
+			}
+			close(setsDone)
+		}()
+		// the peer stays silent until the Set() calls have either all returned (a sender
+		// that does not hold the lock while writing lets them through) or are
+		// evidently waiting for the sender (20 ms)
+		select {
+		case <-setsDone:
+		case <-time.After(20 * time.Millisecond):
+		}
+		time.Sleep(time.Duration(r.Intn(3)) * time.Millisecond)
+		want = last
+		// 4. the peer resumes reading; the connection is left alone
+		drainUntilIdle(setsDone)
 	}
-	time.Sleep(time.Duration(r.Intn(3)) * time.Millisecond)
-	want = last
-	// 4. the peer resumes reading; the connection is left alone
-	drainUntilIdle(setsDone)
 	go io.Copy(io.Discard, c2) // from here on never block the sender (Close() needs its lock)
 	<-setsDone
 	mu.Lock()
@@ -1702,7 +1872,7 @@ func sPipeSchedule(out *vOut, id int, r *rand.Rand) {
 		fails = append(fails, [2]string{"session-no-convergence", fmt.Sprintf("connection stayed up, sender idle: peer table %v, last Set %v (Set() calls made while the sender was writing)", table, want)})
 	}
 	mu.Unlock()
-	lg(fmt.Sprintf("TFinal 1 %s", sTableStr(table)), fmt.Sprintf("end: table %v", table))
+	lg(fmt.Sprintf("TFinal %d %s", cid, sTableStr(table)), fmt.Sprintf("end: c%d table %v", cid, table))
 	s.Close()
 	select {
 	case <-done:
@@ -1711,7 +1881,11 @@ func sPipeSchedule(out *vOut, id int, r *rand.Rand) {
 		fails = append(fails, [2]string{"session-sender-does-not-stop", "sendUpdates did not return 2 s after Close()"})
 		mu.Unlock()
 	}
-	out.Stat("sess:set-during-write", 1)
+	if fault {
+		out.Stat("sess:pipe-fault-reconnect", 1)
+	} else {
+		out.Stat("sess:set-during-write", 1)
+	}
 	out.Stat("sess:set-during-write-messages", nread)
 	hm := map[string]any{"ibgp": ibgp, "peer_as4": fb, "final": "pipe", "trace": human, "special": "set-during-write"}
 	for _, f := range fails {
@@ -1750,7 +1924,7 @@ var sCapFlips = []string{"capflip:on-off:ebgp", "capflip:off-on:ebgp", "capflip:
 
 // what ./check C16 drives through REAL sessions: capability flips and the
 // configured hold time (0 and unset) in the OPEN on the wire
-var sWireFixed = append(append(append([]string{}, sCapFlips...), "hold:0", "hold:nil"), sSource...)
+var sWireFixed = append(append(append([]string{}, sCapFlips...), "hold:0", "hold:nil", "hold-renegotiate"), sSource...)
 
 // one change withdrawing more than 814 /32 routes; sessions with a pinned source address
 var sMass = []string{"mass-withdraw:a", "mass-withdraw:b"}
@@ -1779,7 +1953,7 @@ func TestVerifSess(t *testing.T) {
 	r := vRand()
 	n := vN(30)
 	for i := 0; i < 60+n; i++ {
-		sStepCase(out, 100000+i, r)
+		sStepCase(out, 100000+i, r, map[int]int{0: 1, 1: 2}[i])
 	}
 	for i := 0; i < 10+n/3; i++ {
 		sBackoffCase(out, 200000+i, r)
@@ -1814,7 +1988,17 @@ func TestVerifSess(t *testing.T) {
 			defer wg.Done()
 			psem <- struct{}{}
 			defer func() { <-psem }()
-			sPipeSchedule(out, id, rand.New(rand.NewSource(seed)))
+			sPipeSchedule(out, id, rand.New(rand.NewSource(seed)), false)
+		}(next, r.Int63())
+		next++
+	}
+	for k := 0; k < 12+n/5; k++ {
+		wg.Add(1)
+		go func(id int, seed int64) {
+			defer wg.Done()
+			psem <- struct{}{}
+			defer func() { <-psem }()
+			sPipeSchedule(out, id, rand.New(rand.NewSource(seed)), true)
 		}(next, r.Int63())
 		next++
 	}
